@@ -87,6 +87,16 @@ class Gen:
         self.depth = depth
         self.kinds = {}
         self.varnames = []
+        self.wide_budget = 1
+
+    def count(self, choices):
+        """how many clauses: a few, or (once per script, rarely) many — 5…100, the widths at which a depth counter mistaken
+        for a width counter, an inline array or a narrow index would show"""
+        if self.wide_budget > 0 and self.rng.random() < 0.04:
+            self.wide_budget -= 1
+            self.hit("wide")
+            return self.rng.choice([5, 9, 17, 31, 32, 33, 34, 65, 100])
+        return self.rng.choice(choices)
 
     def hit(self, k):
         self.kinds[k] = self.kinds.get(k, 0) + 1
@@ -225,7 +235,8 @@ class Gen:
             return bnd
         if x < 0.55:
             self.hit("src:inorder")
-            subs = [self.source(depth - 1) for _ in range(r.choice([0, 1, 2, 3]))]
+            nsub = self.count([0, 1, 2, 3])
+            subs = [self.source(depth - 1 if nsub <= 3 else 0) for _ in range(nsub)]
 
             def ino(p):
                 s, _ = p.tok("{")
@@ -246,8 +257,8 @@ class Gen:
                 return "(scap %s %s %s)" % (rng_str(s, e), sc, sx), s, e
             return cap
         self.hit("src:allotment")
-        n = r.choice([1, 2, 3])
-        items = [(self.allot(i == n - 1), self.source(depth - 1)) for i in range(n)]
+        n = self.count([1, 2, 3])
+        items = [(self.allot(i == n - 1), self.source(depth - 1 if n <= 3 else 0)) for i in range(n)]
 
         def allo(p):
             s, _ = p.tok("{")
@@ -290,8 +301,8 @@ class Gen:
         if x < 0.7:
             self.hit("dst:inorder")
             # at least one `max` clause: `{ remaining to X }` alone is read as an allotment by the grammar
-            n = r.choice([1, 1, 2, 3])
-            clauses = [(self.expr(1, ["mon", "var"]), self.kod(depth - 1)) for _ in range(n)]
+            n = self.count([1, 1, 2, 3])
+            clauses = [(self.expr(1, ["mon", "var"]), self.kod(depth - 1 if n <= 3 else 0)) for _ in range(n)]
             rest = self.kod(depth - 1)
 
             def ino(p):
@@ -308,8 +319,8 @@ class Gen:
                 return "(din %s %s%s)" % (rng_str(s, e), sr, "".join(" " + x for x in xs)), s, e
             return ino
         self.hit("dst:allotment")
-        n = r.choice([1, 2, 3])
-        items = [(self.allot(i == n - 1), self.kod(depth - 1)) for i in range(n)]
+        n = self.count([1, 2, 3])
+        items = [(self.allot(i == n - 1), self.kod(depth - 1 if n <= 3 else 0)) for i in range(n)]
 
         def allo(p):
             s, _ = p.tok("{")
